@@ -192,6 +192,13 @@ def evaluate_sequential(case, runner):
         findings.append(("no-quiescence", "run aborted: %s after %d steps"
                          % (runner.aborted, runner.det.step)))
         return findings, info
+    tc = case["program"].get("tc_listener") or ()
+    if tc and any(c[0] == "run_up_to" and any(c[1] == T for T, _ in tc)
+                  for c in case["commands"]):
+        # an exclusive bounded run to exactly a time the TIME_CHANGED subscriber
+        # reacts to: whether that time is announced when the run resumes (the
+        # clock is already there) is not specified; not judged
+        return [], {"invalid": True, "accepted": 0, "refused": 0, "unjudged": 1}
     ref = make_ref(case)
     cmds = split_history(H)
     top = [c for c in cmds if not c["callback"]]
